@@ -55,17 +55,6 @@ def mc_cfg(maxrev, nghosts, allpats, maxpar=2, inv=("TargetClosed", "KindsComple
             + "".join("INVARIANT %s\n" % i for i in inv) + "".join("PROPERTY %s\n" % p for p in props))
 
 
-def mainline_has_ghost(P, rev):
-    k = rev
-    while True:
-        ps = P[k - 1]
-        if not ps:
-            return False
-        if ps[0] == fc.GHOST:
-            return True
-        k = ps[0]
-
-
 class Job:
     """One history in one configuration: the source is built once, every case gets a fresh target."""
 
@@ -214,7 +203,7 @@ def replay(sub, chunk):
 def pick_cases(hist, rng, per_hist, k):
     """Cases of one history for one configuration: all of them when they fit, else a seeded sample that always keeps
     non-trivial ones (rev not yet in the target) in the majority; the operation rotates over fetch / push / pull, sprout
-    for some empty targets; push / pull need a ghost-free mainline (a branch tip needs a revno)."""
+    for some empty targets; push / pull need a ghost-free mainline (moving a branch tip needs a revno)."""
     P = hist["P"]
     cases = sorted(hist["cases"], key=lambda c: (c["S"], c["rev"]))
     nontriv = [c for c in cases if c["rev"] not in c["S"]]
@@ -227,7 +216,7 @@ def pick_cases(hist, rng, per_hist, k):
         op = OPS[(j + k) % 3]
         if not c["S"] and (j + k) % 2 == 0:
             op = "sprout"
-        if op != "fetch" and mainline_has_ghost(P, c["rev"]):
+        if op in ("push", "pull") and fc.mainline_has_ghost(P, c["rev"]):
             op = "fetch"
         out.append((c["S"], c["rev"], op, c["exp"]))
     return out
@@ -275,12 +264,8 @@ def run(ctx):
     else:
         tlc.check(ctx, "FetchMC", cfg_text=mc_cfg(4, 1, 4), label="MC graphs<=4, 1 ghost, all patterns", timeout=3000)
         tlc.check(ctx, "FetchMC", cfg_text=mc_cfg(5, 0, 3), label="MC graphs<=5, no ghost", timeout=3000)
-    # anti-vacuity: one run that keeps going after each violated witness
-    res = tlc.run(ctx, "FetchMC", cfg_text=mc_cfg(3, 1, 3, inv=WITNESSES, props=()), allow_violation=True, extra=("-continue",), workers=4, timeout=1500)
-    ctx.add_tlc(res, "witnesses")
-    for w in WITNESSES:
-        if "Invariant %s is violated" % w not in res["output"]:
-            ctx.machinery("vacuity guard: witness %s was not reached" % w)
+    for w in WITNESSES:      # anti-vacuity: states TLC must reach
+        tlc.check(ctx, "FetchMC", cfg_text=mc_cfg(3, 1, 3, inv=(w,), props=()), expect_violation=w, label="witness " + w, workers=4)
     # ---- E2: cases exported by TLC for a seeded sample of the universe
     maxrev, nhist, per_hist = (4, 40, 5) if ctx.quick else (5, 400, 8)
     total = fc.count_universe(maxrev, 2, 1)
